@@ -71,7 +71,7 @@ func (c06) Cases(tier string) int {
 func (c06) Describe() core.Info {
 	return core.Info{
 		Level: "exploration",
-		Rule: "random histories (15-120 ops) of add/remove/contains/query/list/count/merge over a ~40-atom universe (same symbol with arities 0,1,2; all constant kinds; patterns with constants in non-first columns) on 12 store kinds (incl. the temporal adapter over a plain and over a layered temporal store) x 2 universes (plain: pairwise distinct Atom.Hash; collide: contains hash-equal distinct atoms); oracle = Go map keyed by canonical encoding, layered for merged/teeing; multi-indexed stores additionally walked by the verif index-agreement hook at quiescent points; on the concurrent wrappers the history is followed by a contended phase: 4 goroutines add and remove the same <= 4 atoms at once and, at quiescence, (Adds that returned true) - (Removes that returned true) must equal the change in membership of each atom (exactly-once conservation, no search needed). Non-trivial: history has a remove-then-query or a merge and reaches >= 4 distinct model states; distinct by hash of (kind, op sequence).",
+		Rule: "random histories (15-120 ops) of add/remove/contains/query/list/count/merge over a ~40-atom universe (same symbol with arities 0,1,2 and 5,6; all constant kinds; patterns with constants in non-first columns) on 12 store kinds (incl. the temporal adapter over a plain and over a layered temporal store) x 2 universes (plain: pairwise distinct Atom.Hash; collide: contains hash-equal distinct atoms); oracle = Go map keyed by canonical encoding, layered for merged/teeing; multi-indexed stores additionally walked by the verif index-agreement hook at quiescent points; on the concurrent wrappers the history is followed by a contended phase: 4 goroutines add and remove the same <= 4 atoms at once and, at quiescence, (Adds that returned true) - (Removes that returned true) must equal the change in membership of each atom (exactly-once conservation, no search needed). Non-trivial: history has a remove-then-query or a merge and reaches >= 4 distinct model states; distinct by hash of (kind, op sequence).",
 		Assumptions: []string{"canon encoding is injective (unit-tested)", "ListPredicates may list stale empty predicates", "EstimateFactCount of merged/teeing may over-estimate (documented)"},
 	}
 }
@@ -100,7 +100,7 @@ func c06CollidePool() []gen.Val {
 var c06Preds = []struct {
 	p string
 	n int
-}{{"p", 0}, {"p", 1}, {"p", 2}, {"q", 2}, {"r", 3}, {"z", 0}}
+}{{"p", 0}, {"p", 1}, {"p", 2}, {"q", 2}, {"r", 3}, {"z", 0}, {"w", 5}, {"w", 6}}
 
 func c06RandAtom(r *rand.Rand, pool []gen.Val) gen.AtomV {
 	pd := c06Preds[r.Intn(len(c06Preds))]
@@ -171,9 +171,13 @@ func (c06) Gen(r *rand.Rand, tier string, i int) any {
 				a = c06RandAtom(r, pool)
 			}
 			pat := c06Pat{P: a.P, Args: make([]*gen.Val, len(a.Args))}
-			mode := r.Intn(4) // 0: all vars, 1: all consts, else random
+			mode := r.Intn(5) // 0: all vars, 1: all consts, 4: one constant column, else random
+			one := -1
+			if mode == 4 && len(a.Args) > 0 {
+				one = r.Intn(len(a.Args))
+			}
 			for k := range a.Args {
-				keep := mode == 1 || (mode >= 2 && r.Intn(2) == 0)
+				keep := mode == 1 || k == one || (mode >= 2 && mode < 4 && r.Intn(2) == 0)
 				if keep {
 					v := a.Args[k]
 					pat.Args[k] = &v
